@@ -31,3 +31,24 @@ reg('C17', engine='h_simplify',
                  'the build does not enable -fsanitize=float-cast-overflow (not part of gcc -fsanitize=undefined): the '
                  'NaN->int cast in interpolate(count) on zero-length paths is reached (counter '
                  'c17_interpolate_count_zero_length_path) but not trapped'])
+
+reg('C18', engine='h_ptc', variants={'quick': ['asan'], 'thorough': ['asan', 'tsan']},
+    rule='one case = one generated history on one kind of termination condition (kind = fixed function of the case index): '
+         'scripted predicate trace (1-500 steps) with terminate(); random or/and nesting (depth <= 5, <= 20 nodes, always/'
+         'never leaves, copies) with terminate() from the evaluating or a second thread; a block of 25 iteration counts n '
+         '(0..1000 in 41 blocks) directly with reset() and through the cast; a timed condition (5-300 ms, direct or '
+         'polled); an exact-solution history on a problem definition; a cost sequence through the cost-convergence '
+         'condition; a periodic condition over logical steps with copies, a second evaluating thread, terminate() and '
+         'destruction; every evaluation is compared with the reference model; non-trivial = history of >= 2 steps',
+    floors={'quick': {}, 'thorough': {}},
+    level_text='Held on the executions produced: every evaluation of every generated termination-condition history agreed '
+               'with the reference model of its kind (DESIGN 4/C18); timing clauses with 50 ms slack on the steady clock.',
+    technique='runtime monitoring: reference models over scripted traces, logical-step monitor for the periodic thread; '
+              'ASan+UBSan, thread scenarios also under TSan',
+    assumptions=['cross-thread terminate() is ordered through a harness atomic (release/acquire); evaluations that overlap '
+                 'the call may see either state (the race on the flag itself is C19)',
+                 'timed clauses: 50 ms slack; a case in which the system clock was stepped against the steady clock, or in '
+                 'which a millisecond-sleeping twin thread did not get through two check intervals, is inconclusive',
+                 'cost convergence: the reference replicates the cumulative moving average as implemented; decisions '
+                 'within 1e-9 relative of a threshold are inconclusive',
+                 'under TSan only the thread scenarios run; TSan reports are not turned into C18 violations by the driver'])
